@@ -58,3 +58,12 @@ Print Assumptions C07_required_sticks.
 Theorem C07_required_list : forall d, merge' (VList d) VNull = Ok (VList d).
 Proof. reflexivity. Qed.
 Print Assumptions C07_required_list.
+
+(* C07_encode_validated is about something: {$encode: base64, $value: "hi"} evaluates (its content is evaluated,
+   validated, then encoded), while the same map over an unresolved marker is refused before anything is encoded *)
+Example C07_encode_example :
+  let o := {| o_env := []; o_yaml := fun _ => Err EOracle; o_enc := fun _ _ => Err EOracle; o_dec := fun _ _ => Err EOracle;
+              o_fmt := fun _ => false; o_sha := fun _ => Err EOracle; o_lower := fun _ => false |} in
+  p2 o [] 0 5 [] (VMap [("$encode", VStr "base64"); ("$value", VStr "hi")]) = Ok (VStr "aGk=") /\
+  p2 o [] 0 5 [] (VMap [("$encode", VStr "base64"); ("$value", VStr "$required")]) = Err ERequired.
+Proof. split; vm_compute; reflexivity. Qed.
